@@ -38,11 +38,17 @@ func appCases(args []string) {
 			holds = []int{0, -1, -2, -3, 1, 2, 3, 5}
 		}
 		// the kind of the LAST message varies: MSM with the multiple-message flag set / clear, 1005, other types, junk, partial frame
-		lastKinds := 6
+		lastKinds := 9
 		for k := 0; k < lastKinds; k++ {
 			head := wellStructured(rng, 2+rng.Intn(4), 60, k)
 			var last []byte
 			switch k {
+			case 6: // a long run of other data at the end: its display is a very large single write (> 64 kB)
+				last = gen.Junk(rng, 14000+rng.Intn(4000), 1)
+			case 7:
+				last = gen.Junk(rng, 40000, 0)
+			case 8: // the largest frame there is
+				last = gen.Frame(rng, 1230, 1023, 0)
 			case 0, 1:
 				sp := gen.RandomMSM(rng, gen.MSMTypes[rng.Intn(14)], 7, 0, uint64(1-k), 0) // k=0: more messages follow
 				last = tr.Frame(sp.Encode())
